@@ -39,7 +39,7 @@ ALTS = [
     ('proper', [False]),
     ('mate_unmapped', [True]),
     ('unmapped', [True]),
-    ('cigar', ['4M1I5M', '5M1D5M', '2S8M']),
+    ('cigar', ['4M1I5M', '5M1D5M', '2S8M', '8M2S']),
     ('NM', [1, 2, None]),
     ('XA', ['chr2,+3,10M,0;', 'chr1_alt,+3,10M,0;', 'chr1_alt,+3,10M,0;chr2,-7,10M,1;', '']),   # '': present but empty
     ('NH', [1, 3]),
@@ -56,7 +56,7 @@ ALTS = [
     ('DS', [0, 250]),
 ]
 CORE_ALTS = {'role': ['R2', 'single'], 'qcfail': [True], 'dup': [True], 'RR': [True], 'mapq': [0, 29, 30],
-             'proper': [False], 'mate_unmapped': [True], 'unmapped': [True], 'cigar': ['4M1I5M', '5M1D5M', '2S8M'],
+             'proper': [False], 'mate_unmapped': [True], 'unmapped': [True], 'cigar': ['4M1I5M', '5M1D5M', '2S8M', '8M2S'],
              'NM': [1, 2, None], 'XA': ['chr2,+3,10M,0;', 'chr1_alt,+3,10M,0;', 'chr1_alt,+3,10M,0;chr2,-7,10M,1;'],
              'NH': [1, 3], 'mp': ['bad', None], 'SM': ['B'], 'XT': ['g2', 0], 'RC': [3], 'contig': [1],
              'pos': [420, 700]}
@@ -124,7 +124,7 @@ def never_ambiguous(rd):
     return True
 
 
-def to_pysam(rd, hdr):
+def to_pysam(rd, hdr, contig_index_of=None):
     from gen import c10_counttable as G
     tags = [('SM', rd['SM']), ('XT', rd['XT']), ('RC', rd['RC']), ('ri', rd['ri']), ('DS', rd['DS'])]
     if rd['bi'] in ('BI', 'both'):
@@ -142,7 +142,8 @@ def to_pysam(rd, hdr):
     if rd['RR']:
         tags.append(('RR', 'NoCutSite'))
     paired = rd['role'] != 'single'
-    return G.mk_read(hdr, 'q' + rd['ri'], contig_index=rd['contig'], pos=rd['pos'], cigar=rd['cigar'], mapq=rd['mapq'],
+    ci = rd['contig'] if contig_index_of is None else contig_index_of(rd['contig'])
+    return G.mk_read(hdr, 'q' + rd['ri'], contig_index=ci, pos=rd['pos'], cigar=rd['cigar'], mapq=rd['mapq'],
                      tags=tags, paired=paired, read2=(rd['role'] == 'R2'), proper=(rd['proper'] if paired else False),
                      mate_unmapped=rd['mate_unmapped'], unmapped=rd['unmapped'], qcfail=rd['qcfail'],
                      duplicate=rd['dup'], reverse=(rd['role'] == 'R2'), mate_pos=rd['pos'],
